@@ -14,7 +14,7 @@ NalNri(u) == (u[1] \div 32) % 4
 SC(n) == IF n = 4 THEN <<0, 0, 0, 1>> ELSE <<0, 0, 1>>
 AnnexB(units, scs) == Flatten([i \in 1..Len(units) |-> SC(scs[i]) \o units[i]])
 \* what the receiver hands on for one unit
-Framed(u, avc) == (IF avc THEN <<0, 0, Len(u) \div 256, Len(u) % 256>> ELSE <<0, 0, 0, 1>>) \o u
+Framed(u, avc) == (IF avc THEN <<0, Len(u) \div 65536, (Len(u) \div 256) % 256, Len(u) % 256>> ELSE <<0, 0, 0, 1>>) \o u   \* AVC: 32-bit big-endian length
 
 -----------------------------------------------------------------------------
 (* Reference encoders (independent of the library) *)
